@@ -74,7 +74,7 @@ def run_suite(seed, n, max_nodes=18, kinds=None, corpus=(), unique_fns=False):
     stats = {'cases': 0, 'steps': 0, 'calls': 0, 'errors': {}, 'kinds': {}, 'nontrivial': 0, 'distinct': set(),
              'model_errors': 0, 'den_mismatch': 0, 'sizes': {},
              'thm_instances': 0, 'thm_contradicted': 0, 'thm_hyp_false': 0,
-             'cached_thm_instances': 0, 'cached_thm_contradicted': 0, 'decode_instances': 0, 'decode_vs_real_mismatch': 0, 'decode_bad': []}
+             'cached_thm_instances': 0, 'cached_thm_contradicted': 0, 'static_instances': 0, 'static_vs_real_mismatch': 0, 'decode_instances': 0, 'decode_vs_real_mismatch': 0, 'decode_bad': []}
     for (case, steps), ans in zip(cases, answers):
         stats['cases'] += 1
         real = run_case_real(case, steps)
@@ -124,6 +124,13 @@ def run_suite(seed, n, max_nodes=18, kinds=None, corpus=(), unique_fns=False):
                         stats['cached_thm_contradicted'] += 1
                 # instances of CM.C05.hash_determines_value against the REAL value: on a plain graph the value the real
                 # code returns must be decode(hash of the output), the hash being compared with the real one in hash steps
+                # instances of CM.C06.static_hash_determines_value against the REAL value: evalG(input, static graph hash)
+                if st['t'] == 'call' and m.get('static_decoded') is not None and 'ok' in r.get('r', {}):
+                    stats['static_instances'] += 1
+                    if canon(m['static_decoded']) != canon(r['r']['ok']):
+                        stats['static_vs_real_mismatch'] += 1
+                        if len(stats['decode_bad']) < 3:
+                            stats['decode_bad'].append({'case': case, 'step': st, 'real': r['r'], 'static_decoded': m['static_decoded']})
                 if st['t'] == 'call' and m.get('decoded') is not None and 'ok' in r.get('r', {}):
                     stats['decode_instances'] += 1
                     if canon(m['decoded']) != canon(r['r']['ok']):
